@@ -370,6 +370,50 @@ def generate_ssched(repo: Path) -> str:
             + "\n" + SSCHED_TIE + "\nend Pamiq.GenSSched\n")
 
 
+TIES_DIR = Path(__file__).resolve().parent / "ties"
+
+
+def generate_control_tick(repo: Path) -> str:
+    """`ControlThread.on_tick` / `process_received_web_api_commands` / `shutdown` (its calls of `save_state`, `try_pause`
+    and `resume` one log entry each) as Lean actions that log the calls they make, tied to `Pamiq.Tick.tick`."""
+    import translate_skel as S
+    t = S.SkelTr(repo, S.CONTROL_SPEC, opaque=("save_state", "try_pause", "resume"))
+    gen = t.generate(["on_tick", "on_finally", "is_running"])
+    body = (TIES_DIR / "control_tick.lean").read_text().replace("--%GEN%\n", gen)
+    return ("import Pamiq.Model.Tick\nset_option linter.unusedVariables false\nset_option linter.unusedSimpArgs false\n"
+            "namespace Pamiq.GenCT\nopen Pamiq\n\n" + S.PRELUDE + "\n" + body + "\nend Pamiq.GenCT\n")
+
+
+def generate_control_proto(repo: Path) -> str:
+    """`try_pause`, `resume`, `shutdown`, `save_state`, `on_finally` with every call interpreted as the control actions of
+    `Pamiq.Proto` it stands for (`Model/ProtoCtl.lean`): the translated methods never leave the control graph."""
+    import translate_skel as S
+    t = S.SkelTr(repo, S.CONTROL_SPEC, trace_calls=True)
+    gen = t.generate(["save_state", "try_pause", "resume", "shutdown", "on_finally"])
+    body = (TIES_DIR / "control_proto.lean").read_text().replace("--%GEN%\n", gen)
+    return ("import Pamiq.Model.Tick\nimport Pamiq.Lemmas.ProtoCtl\nset_option linter.unusedVariables false\n"
+            "set_option linter.unusedSimpArgs false\nnamespace Pamiq.GenCTP\nopen Pamiq\n\n" + body + "\nend Pamiq.GenCTP\n")
+
+
+def qualified_theorems(text: str) -> list[str]:
+    """Fully qualified names of the theorems of a generated file (namespaces tracked line by line)."""
+    ns: list[str] = []
+    out = []
+    for l in text.splitlines():
+        m = re.match(r"namespace (\S+)", l)
+        if m:
+            ns.append(m.group(1))
+            continue
+        m = re.match(r"end (\S+)", l)
+        if m and ns and ns[-1] == m.group(1):
+            ns.pop()
+            continue
+        m = re.match(r"theorem (\w+'?)", l)
+        if m:
+            out.append(".".join(ns + [m.group(1)]))
+    return out
+
+
 def generate_class(repo: Path) -> str:
     """`TimeController` as a Lean state machine + the theorems tying every method to `Pamiq.Clock`."""
     import translate_class as TCm
@@ -382,7 +426,9 @@ def check_class(res: SuiteResult, repo: Path, which: str = "TimeController") -> 
     gen, ns, model, nmeth = {"TimeController": (generate_class, "GenTC", "Pamiq.Clock", len(CLASS_METHODS)),
                              "ThreadController": (generate_ctl, "GenCtl", "Pamiq.Proto", len(CTL_METHODS)),
                              "TimeIntervalScheduler": (generate_tsched, "GenTSched", "Pamiq.Sched", 2),
-                             "StepIntervalScheduler": (generate_ssched, "GenSSched", "Pamiq.Sched", 3)}[which]
+                             "StepIntervalScheduler": (generate_ssched, "GenSSched", "Pamiq.Sched", 3),
+                             "ControlThread.on_tick": (generate_control_tick, "GenCT", "Pamiq.Tick", 5),
+                             "ControlThread.pause_save": (generate_control_proto, "GenCTP", "Pamiq.Proto (ProtoCtl)", 7)}[which]
     try:
         text = gen(repo)
     except T.Untranslatable as e:
@@ -391,9 +437,10 @@ def check_class(res: SuiteResult, repo: Path, which: str = "TimeController") -> 
         res.extra.setdefault("unavailable", []).append(f"{which}: {e}")
         return
     names = re.findall(r"^theorem (\w+)", text, re.M)
+    qnames = qualified_theorems(text) if which.startswith("ControlThread") else [f"Pamiq.{ns}.{n}" for n in names]
     with tempfile.TemporaryDirectory(prefix="pamiq-verif.") as d:
         f = Path(d) / "GenTC.lean"
-        f.write_text(text + "\n" + "\n".join(f"#print axioms Pamiq.{ns}.{n}" for n in names) + "\n")
+        f.write_text(text + "\n" + "\n".join(f"#print axioms {n}" for n in qnames) + "\n")
         proc = subprocess.run(["lake", "env", "lean", str(f)], cwd=LEAN_DIR, capture_output=True, text=True)
         log = proc.stdout + proc.stderr
     if proc.returncode == 0:
@@ -410,7 +457,8 @@ def check_class(res: SuiteResult, repo: Path, which: str = "TimeController") -> 
         return
     # which theorems fail? map error lines to the enclosing theorem
     lines = text.splitlines()
-    starts = [(k + 1, re.match(r"theorem (\w+)", l).group(1)) for k, l in enumerate(lines) if l.startswith("theorem ")]
+    starts = [(k + 1, m.group(1)) for k, l in enumerate(lines)
+              if (m := re.match(r"(?:@\[[^\]]*\]\s*)?theorem (\w+'?)", l))]
     failing, other = set(), []
     for l in log.splitlines():
         m = re.match(r".*GenTC\.lean:(\d+):\d+: error: (.*)", l)
@@ -478,6 +526,10 @@ def suite_for(*props: str):
         if "C15" in props:
             check_class(res, Path(REPO), "TimeIntervalScheduler")
             check_class(res, Path(REPO), "StepIntervalScheduler")
+        if {"C03", "C08", "C17"} & set(props):
+            check_class(res, Path(REPO), "ControlThread.on_tick")
+        if {"C01", "C02", "C04"} & set(props):
+            check_class(res, Path(REPO), "ControlThread.pause_save")
         text, parts, done, skipped = generate(Path(REPO), props)
         for fn, why in skipped:
             res.evaluations += 1
@@ -543,6 +595,16 @@ if __name__ == "__main__":
         out4.write_text("/- GENERATED by harness/gentie.py (translate_class.py) from /repo's utils/schedulers.py (reference "
                         "copy of what every C15 run re-creates and re-checks; do not edit). -/\n" + both)
         print("written", out4)
+        out5 = Path(LEAN_DIR) / "Pamiq" / "Gen" / "ControlThreadTickTie.lean"
+        out5.write_text("/- GENERATED by harness/gentie.py (translate_skel.py + harness/ties/control_tick.lean) from /repo's "
+                        "thread/threads/control.py (reference copy of what every C03 / C08 / C17 run re-creates and re-checks; "
+                        "do not edit). -/\n" + generate_control_tick(Path(REPO)))
+        print("written", out5)
+        out6 = Path(LEAN_DIR) / "Pamiq" / "Gen" / "ControlThreadProtoTie.lean"
+        out6.write_text("/- GENERATED by harness/gentie.py (translate_skel.py + harness/ties/control_proto.lean) from /repo's "
+                        "thread/threads/control.py (reference copy of what every C01 / C02 / C04 run re-creates and re-checks; "
+                        "do not edit). -/\n" + generate_control_proto(Path(REPO)))
+        print("written", out6)
         out = Path(LEAN_DIR) / "Pamiq" / "Gen" / "DecisionsTie.lean"
         out.parent.mkdir(exist_ok=True)
         out.write_text("/- GENERATED by harness/gentie.py from /repo's source (reference copy of what every run "
